@@ -70,6 +70,19 @@ def histories(draw, kind, tier):
                     for o in ops]}
 
 
+def result_for(args, kwargs, n):
+    """what the wrapped function returns at its n-th invocation: mostly a fresh tuple, but falsy
+    results and None for some patterns (a cache must store those like anything else)"""
+    first = (list(args) + list(kwargs.values()) + ["-"])[0]
+    if first is None:
+        return None
+    if first == 2 and not isinstance(first, bool):
+        return 0
+    if first == "a":
+        return ""
+    return ("result", n)
+
+
 class Model:
     """reference LRU used once cache_discard (no stdlib counterpart) was applied"""
 
@@ -122,7 +135,8 @@ def build_targets(case):
         log.append((args, tuple(kwargs.items())))
         if any(x == "boom" and isinstance(x, str) for x in list(args) + list(kwargs.values())):
             raise ValueError("boom")
-        return ("result", len(log))
+        logged_args = args[1:] if (args and isinstance(args[0], str) and args[0].startswith("inst")) else args
+        return result_for(logged_args, kwargs, len(log))
 
     if maxsize == "bare":
         adeco, sdeco, norm = a.lru_cache, functools.lru_cache, 128
@@ -209,7 +223,7 @@ def check(case):
         mlog.append((logged, tuple(kwargs.items())))
         if any(x == "boom" and isinstance(x, str) for x in list(args) + list(kwargs.values())):
             return ("raise", "ValueError")
-        value = ("result", len(mlog))
+        value = result_for(args, kwargs, len(mlog))
         before = len(model.cache)
         model.store(key, value)
         if model.maxsize and before == model.maxsize and model.hits:
